@@ -12,7 +12,7 @@ from .aggrun import GROUPS, KEYS, agg_class, agg_paths, call, evaluate_subject, 
 from .fsrun import FS, PathV
 
 INFO = {
-    "explanation": "Rounds 4/5: (R17.8) decided semantically - the abstract file system renders the exact csv text of its rows; an existing file with finished subjects whose printable names contain quotes, commas, leading/trailing blanks is continued and every resubmitted subject is recognised. Typestate of the output/claim files over abstract sessions: the aggregator's constructor and evaluate are interpreted over an abstract file system (files = lists of rows, paths = representative shapes: with .tsv, without extension, two-dot names, str and Path). (R17.2/R17.3/R17.7) for every initial state of the output file {absent, empty, header only, header + finished rows} and every path shape the constructor ends with the header present exactly once at the canonical path, finished rows kept and the claims rebuilt from exactly the finished subjects (header cell excluded); (R17.4/R17.5) crash cut points: a two-subject session is cut after every file-modifying operation, a fresh default session on the surviving files plus resubmission of all subjects yields exactly the rows of the uninterrupted run (also after a clean exit that ran the exit handler); (R17.1) two aggregators on sibling output files in one directory (incl. names differing only after the first dot) use different claim files and both record every subject; (R17.6) the exit handler removes only the claim file. Further: R17.2 (permuted / exchanged / prefix headers are rejected), R17.8 (csv-written files are only read through csv.reader); delegated R15.7. Round 6: R17.8 reads cells with line breaks through the real csv module on the exact text with the handle's newline mode; names include embedded \\n and \\r\\n; a name with a lone carriage return is its own obligation (known finding D17 on Python < 3.13). Round 7: the aggregator's output and claim file are found among the paths the object keeps (not by attribute name); R17.1 includes singular/plural, one-more-letter and upper/lower-case sibling names. Round 8: (R17.1) a neighbouring file of the same stem and another extension does not count as the session's own output.",
+    "explanation": "Rounds 4/5: (R17.8) decided semantically - the abstract file system renders the exact csv text of its rows; an existing file with finished subjects whose printable names contain quotes, commas, leading/trailing blanks is continued and every resubmitted subject is recognised. Typestate of the output/claim files over abstract sessions: the aggregator's constructor and evaluate are interpreted over an abstract file system (files = lists of rows, paths = representative shapes: with .tsv, without extension, two-dot names, str and Path). (R17.2/R17.3/R17.7) for every initial state of the output file {absent, empty, header only, header + finished rows} and every path shape the constructor ends with the header present exactly once at the canonical path, finished rows kept and the claims rebuilt from exactly the finished subjects (header cell excluded); (R17.4/R17.5) crash cut points: a two-subject session is cut after every file-modifying operation, a fresh default session on the surviving files plus resubmission of all subjects yields exactly the rows of the uninterrupted run (also after a clean exit that ran the exit handler); (R17.1) two aggregators on sibling output files in one directory (incl. names differing only after the first dot) use different claim files and both record every subject; (R17.6) the exit handler removes only the claim file. Further: R17.2 (permuted / exchanged / prefix headers are rejected), R17.8 (csv-written files are only read through csv.reader); delegated R15.7. Round 6: R17.8 reads cells with line breaks through the real csv module on the exact text with the handle's newline mode; names include embedded \\n and \\r\\n; a name with a lone carriage return is its own obligation (known finding D17 on Python < 3.13). Round 7: the aggregator's output and claim file are found among the paths the object keeps (not by attribute name); R17.1 includes singular/plural, one-more-letter and upper/lower-case sibling names. Round 8: (R17.1) a neighbouring file of the same stem and another extension does not count as the session's own output. Round 9: binary handles on abstract files seek from the end and read n bytes (probing the last byte of a file); csv dialects given as a class, an instance or a registered name are spelled out as their options; skipinitialspace is applied on the reading side.",
     "trusted_base": ["OS: append of one csv row is atomic w.r.t. crashes (a row is either absent or complete)", "csv module round-trips the cells", "Python semantics of the modelled AST subset"],
     "assumptions": ["a crash can happen between any two file operations, not inside one"],
     "not_decided": ["torn writes inside one write call", "OS-level file semantics"],
